@@ -15,8 +15,9 @@ Tie (every run):
     threadpool_serial.c, (c) among all configurations.
  1b. API scripts (files, sqfs_block_processor_submit_block, sync between files) and a compressor that FAILS on marked blocks
     (codec `toyf` of harness/h_c02.c) against `sqfsmodel c02 runx` (Sqfs/Model/BlockProcFail.lean): the serial-pool build must
-    equal the model of the current sync() or of the repaired one; when some block's work fails every backlog / worker count /
-    schedule must end in an error (determinism of failure).
+    equal the model of the current code (sync() ends with get_status, /repo 69db961; runx variant 1); a build that equals the
+    model of the sync() before 69db961 (variant 0) is reported as such; when some block's work fails every backlog / worker
+    count / schedule must end in an error (determinism of failure).
  1c. compressor level — harness/h_c02_comp.c: every compiled-in compressor x a seeded sample of its option space: the
     configured compressor is sqfs_copy'd into k worker copies as sqfs_block_processor_create_ex does, seeded block sequences are
     fed to the copies under seeded assignments; every result must equal a fresh compressor's result for that block alone
@@ -34,7 +35,8 @@ from checks.c09 import run_parallel, jobs
 LEVEL = "proof"
 MODULE = "Sqfs.Props.C02"
 EXTRA_THEOREMS = ("stateful_pool_is_pure", "schedule_independent_stateful", "stateful_worker_schedule_dependent",
-                  "script_schedule_independent", "failure_deterministic_partial", "failed_item_back_status_nonzero",
+                  "script_schedule_independent", "failure_deterministic_partial", "failure_backlog_independent", "healthy_run_status_zero",
+                  "failed_item_back_status_nonzero",
                   "run_eq_specPack", "threaded_eq_specPack", "threaded_readback", "threaded_directives", "tree_order_bytewise")
 REQUIRED = ["Sqfs.C02." + t for t in (
     "run_eq_spec", "backlog_independent", "run_ok", "dequeue_never_internal_error", "finish_writes_everything",
@@ -455,7 +457,7 @@ def script_level(ctx, stats, h, hs):
         bad += len(untraced)
         ctx.violation("infra:unit-trace-missing", "%d API script runs came back without the complete pool trace (dl, mtx, fifo, sub, wfail): without it a failed "
                       "callback would go unnoticed" % len(untraced), {"kind": "unit", "line": untraced[0], "serial_line": untraced[0]}, found_input=False)
-    variant_seen = {"current": 0, "repaired": 0, "either": 0}
+    variant_seen = {"before_69db961": 0, "current": 0, "either": 0}
     nfail_scripts = ndet = nmanual = 0
     for wi, w in enumerate(scripts):
         sers = [split_result(x)[0] for x in ser[wi * nm:(wi + 1) * nm]]
@@ -465,24 +467,28 @@ def script_level(ctx, stats, h, hs):
             continue
         if any(o[0] == "m" for o in w["ops"]):
             nmanual += 1
-        # (a) correspondence: the serial-pool build is the model of the current sync() or of the repaired one
+        # (a) correspondence: the serial-pool build is the model of the current code (v1: sync() returns the pool status).  A build
+        # that is the model of the sync() before 69db961 (v0) where the two differ lacks that repair: model != code, and (c)
+        # below reports the swallowed failure itself.
         for k in range(nm):
             if sers[k] == v0[k] and sers[k] == v1[k]:
                 variant_seen["either"] += 1
-            elif sers[k] == v0[k]:
-                variant_seen["current"] += 1
             elif sers[k] == v1[k]:
-                variant_seen["repaired"] += 1
+                variant_seen["current"] += 1
             else:
+                old = sers[k] == v0[k]
+                if old:
+                    variant_seen["before_69db961"] += 1
                 corr_bad += 1
                 if corr_bad <= 3:
                     ctx.violation("corr-script:" + vlib.sha(m0_lines[wi * nm + k])[:12],
-                                  "model and real block processor (serial pool) differ on an API script: real=%s model(current sync)=%s model(repaired sync)=%s" % (
-                                      sers[k][:400], v0[k][:300], v1[k][:100]),
+                                  "model and real block processor (serial pool) differ on an API script%s: real=%s model(current code)=%s model(sync before 69db961)=%s" % (
+                                      " - the build behaves like sqfs_block_processor_sync before 69db961 (no get_status at the end)" if old else "",
+                                      sers[k][:400], v1[k][:300], v0[k][:100]),
                                   {"kind": "unit-script", "model_lines": [m0_lines[wi * nm + k], m1_lines[wi * nm + k]], "harness_line": ser_lines[wi * nm + k],
                                    "model": [v0[k], v1[k]], "real": sers[k]},
-                                  found_input=(v0[k].startswith("ok ") and sers[k].startswith("err") and w["codec"] != "toyf"))
-        # does some block's work fail?  (the repaired model reports the pool status at the end of every drain; the trace of the
+                                  found_input=(v1[k].startswith("ok ") and sers[k].startswith("err") and w["codec"] != "toyf"))
+        # does some block's work fail?  (the model reports the pool status at the end of every drain; the trace of the
         # real run counts the failed callbacks)
         fails = any(int(split_result(x)[1].get("wfail", "0")) > 0 for x in ser[wi * nm:(wi + 1) * nm]) or \
             any(int(split_result(a)[1].get("wfail", "0")) > 0 for a, mt in zip(thr, meta) if mt[0] == wi)
@@ -539,10 +545,6 @@ def script_level(ctx, stats, h, hs):
                     ctx.violation("serial-backlog-script:" + vlib.sha(ser_lines[wi * nm + k])[:12],
                                   "serial-pool build: output of an API script depends on max_backlog (%d vs %d)" % (MB_X[0], MB_X[k]),
                                   {"kind": "unit-serial", "lines": [ser_lines[wi * nm], ser_lines[wi * nm + k]], "outputs": [sers[0][:2000], sers[k][:2000]]})
-    if variant_seen["current"] and variant_seen["repaired"]:
-        corr_bad += 1
-        ctx.violation("corr-script:mixed-variants", "the serial-pool build matches the model of the current sync() on some scripts and the model of the "
-                      "repaired sync() on others: %s" % variant_seen, {"kind": "unit-script-mixed", "seen": variant_seen}, found_input=False)
     stats["scripts"] = {"scripts": len(scripts), "corpus": len(corpus), "with_manual_submission": nmanual,
                         "with_sync_between_files": sum(1 for w in scripts if any(o[0] == "s" for o in w["ops"])),
                         "scripts_in_which_a_worker_callback_failed": nfail_scripts, "of_those_every_run_an_error": ndet,
@@ -796,6 +798,7 @@ def build_tools(ctx, stats):
     if r.returncode != 0:
         raise vlib.CheckFailure("cannot build shim_c02_time.so: " + r.stderr[-1000:])
     out["timeshim"] = shim
+    stats["clock_selftest"] = time_selftest(ctx, shim)
     # locale / time zone / environment shim (harness/shim_c02_locale.c) and the proof that it is bound and answers as documented
     lshim = ctx.scratch / "shim_c02_locale.so"
     r = vlib.sh(["gcc", "-O1", "-shared", "-fPIC", "-w", str(vlib.HARNESS / "shim_c02_locale.c"), "-o", str(lshim), "-ldl"])
@@ -808,9 +811,11 @@ def build_tools(ctx, stats):
     e = dict(os.environ)
     e.update({"LD_PRELOAD": str(lshim), "C02_LOCALE_HOSTILE": "1", "C02_LOCALE_LOG": str(ctx.scratch / "c02_locale_selftest.log"), "TZ": "UTC"})
     r = vlib.sh([str(st)], env=e, timeout=60)
-    want = "before=1 ci_before=1 locale=xx_XX.HOSTILE after=0 punct=1 ci_after=0 lowerI=253 alphaE9=1 dp=, hour=13 min=45 tz=UTC"
+    # fn=06: before setlocale fnmatch is the C locale's ("[a-z]*" does not match "Zeta"), afterwards it folds case
+    want = "before=1 ci_before=1 locale=xx_XX.HOSTILE after=0 punct=1 ci_after=0 lowerI=253 alphaE9=1 dp=, hour=13 min=45 tz=UTC fn=06"
     log = read_locale_log(ctx.scratch / "c02_locale_selftest.log")
-    if r.stdout.strip() != want or log.get("strcoll") != "3" or log.get("setlocale") != "1" or log.get("active") != "111":
+    if r.stdout.strip() != want or log.get("strcoll") != "3" or log.get("setlocale") != "1" or log.get("active") != "111" or \
+            log.get("fnmatch") != "5" or log.get("setlocale_args") != '6:"",':
         raise vlib.CheckFailure("the locale shim is not in effect: self test printed %r (want %r), log %r" % (r.stdout.strip(), want, log))
     out["localeshim"] = lshim
     stats["locale_shim_selftest"] = r.stdout.strip()
@@ -892,7 +897,33 @@ def make_inputs(ctx, rng, quick, idx):
             ti.mtime = t
             tf.addfile(ti, io.BytesIO(data))
     (d / "in.tar").write_bytes(bio.getvalue())
+    write_glob_inputs(rng, d)
     return {"dir": d, "B": B, "nfiles": len(files), "bytes": sum(len(x) for _, x in files)}
+
+
+def write_glob_inputs(rng, d):
+    """the two places where the packers hand file names to a locale-sensitive libc function (fnmatch): `glob ... -name <pattern>` lines
+    of a pack file (lib/common/src/dir_tree_iterator.c) and `[glob]` / `[glob_no_path]` lines of a sort file
+    (bin/gensquashfs/src/sort_by_file.c).  The patterns are chosen so that matching differs between the C locale and a collating /
+    case-folding one: bracket ranges over letters (`[a-z]`, `[A-Z]`, `[a-Z]` - empty in the C locale, all letters in en_US -, `[A-z]`),
+    ranges over high bytes, a character class.  In the C locale the -name patterns of the pack file partition the names (no file is
+    added twice); which line matched a file shows in its mode / uid / gid, which sort line matched it in its position and block flags.
+    Drawn from `rng` after everything else, so the other inputs of a seed are what they were."""
+    modes = ["0644", "0600", "0640", "0444"]
+    rng.shuffle(modes)
+    pack = [b"glob / * * * -type d .",
+            b"glob / 0604 5 5 -type f -name \"[a-Z]*\" .",
+            b"glob / %s * * -type f -name \"[a-z]*\" ." % modes[0].encode(),
+            b"glob / %s 1000 100 -type f -name \"[A-Z]*\" ." % modes[1].encode(),
+            b"glob / %s 0 7 -type f -name \"[!a-zA-Z]*\" ." % modes[2].encode()]
+    (d / "pack_glob.txt").write_bytes(b"\n".join(pack) + b"\n")
+    lines = [b"[glob] */[a-Z]*", b"[glob_no_path,dont_fragment] *[\xc0-\xff]*", b"[glob] a/[a-f]*", b"[glob_no_path,dont_compress] *_[x-z]*",
+             b"[glob,dont_deduplicate] */[!a-z]*", b"[glob_no_path] *[[:upper:]]", b"[glob,nosparse] [A-z]*", b"[glob] [f-i]*_[H-J]",
+             b"[glob_no_path,dont_fragment] *\xc3[\x80-\x9f]*"]
+    rng.shuffle(lines)
+    prios = sorted(rng.sample(range(-500, 500), len(lines)))
+    rng.shuffle(prios)
+    (d / "sort.txt").write_bytes(b"".join(b"%d %s\n" % (pr, ln) for pr, ln in zip(prios, lines)))
 
 
 def input_rng(seed, tier, ci):
@@ -908,6 +939,10 @@ def tool_cmd(builds, variant, flavour, inp, out, comp, extra):
     cmd = [str(builds[variant]["gensquashfs"]), "-q", "-f", "-b", str(inp["B"]), "-c", comp] + extra
     if flavour == "packdir":
         cmd += ["-D", str(d / "root")]
+    elif flavour == "packdir-sort":                 # fnmatch on the `[glob]` lines of a sort file
+        cmd += ["-D", str(d / "root"), "-S", str(d / "sort.txt")]
+    elif flavour == "globfile-sort":                # fnmatch on `glob ... -name` lines of a pack file, and on the sort file
+        cmd += ["-F", str(d / "pack_glob.txt"), "-D", str(d / "root"), "-S", str(d / "sort.txt")]
     elif flavour == "packdir-k":
         cmd += ["-D", str(d / "root"), "-k"]
     else:
@@ -938,6 +973,65 @@ def sha_file(p):
         return hashlib.sha256(Path(p).read_bytes()).hexdigest()
     except OSError:
         return "<no image>"
+
+
+TIME_SELFTEST_CALLS = ["time", "time", "gettimeofday", "clock_gettime", "clock_gettime", "timespec_get", "ftime"]
+
+
+def read_time_log(p):
+    """record file of harness/shim_c02_time.c -> {"bound": [exe names], "reads": [entry points read by a process that is not
+    taskset]}; None when the file is missing, unreadable or holds a line that is not a record (never "0 reads")"""
+    try:
+        text = Path(p).read_text()
+    except (OSError, UnicodeDecodeError):
+        return None
+    res = {"bound": [], "reads": []}
+    for line in text.splitlines():
+        tok = line.split()
+        try:
+            kv = dict(t.split("=", 1) for t in tok[1:])
+            if tok[0] == "bound":
+                res["bound"].append(kv["exe"])
+            elif tok[0] == "read":
+                if kv["exe"] != "taskset":
+                    res["reads"].append(kv["fn"])
+            else:
+                return None
+        except (IndexError, KeyError, ValueError):
+            return None
+    return res
+
+
+def time_selftest(ctx, shim):
+    """the proof that the clock shim is bound and answers the faked wall clock behind every entry point it hooks: harness/
+    c02_time_selftest.c under the packers' LD_PRELOAD / C02_FAKE_TIME / C02_TIME_LOG environment, at two different fake times"""
+    st = ctx.scratch / "c02_time_selftest"
+    r = vlib.sh(["gcc", "-O1", "-w", str(vlib.HARNESS / "c02_time_selftest.c"), "-o", str(st)])
+    if r.returncode != 0:
+        raise vlib.CheckFailure("cannot build c02_time_selftest: " + r.stderr[-1000:])
+    log = ctx.scratch / "c02_time_selftest.log"
+    outs = []
+    for ft in ("86399", "4102444800"):
+        if log.exists():
+            log.unlink()
+        e = dict(os.environ)
+        e.update({"LD_PRELOAD": str(shim), "C02_FAKE_TIME": ft, "C02_TIME_LOG": str(log), "TZ": "UTC"})
+        r = vlib.sh([str(st)], env=e, timeout=60)
+        want = ("time=%s time_arg=%s gettimeofday=%s.000000 clock_gettime=%s.000000000 clock_gettime_coarse=%s timespec_get=%s.000000000 "
+                "base_ok=1 ftime=%s monotonic_advances=1" % ((ft,) * 7))
+        tl = read_time_log(log)
+        if r.returncode != 0 or r.stdout.strip() != want or tl is None or tl["bound"] != ["c02_time_selftest"] or tl["reads"] != TIME_SELFTEST_CALLS:
+            raise vlib.CheckFailure("the clock shim is not in effect: self test (C02_FAKE_TIME=%s) printed %r (want %r), record file %r (want one "
+                                    "bound record of c02_time_selftest and the reads %r)" % (ft, r.stdout.strip(), want, tl, TIME_SELFTEST_CALLS))
+        outs.append(r.stdout.strip())
+    # and without the library the program sees the real clock: the expected text above is not what an unbound run prints
+    e = dict(os.environ)
+    e.pop("LD_PRELOAD", None)
+    r = vlib.sh([str(st)], env=e, timeout=60)
+    if r.stdout.strip() in outs or "time=" not in r.stdout:
+        raise vlib.CheckFailure("c02_time_selftest without the clock shim printed %r: the self test does not tell a bound shim from none" % r.stdout.strip())
+    return {"fake_times": ["86399", "4102444800"], "output": outs[0], "records_per_run": 1 + len(TIME_SELFTEST_CALLS), "entry_points": sorted(set(TIME_SELFTEST_CALLS)),
+            "monotonic_clock_stays_real": True}
 
 
 def read_locale_log(p):
@@ -974,7 +1068,7 @@ def tool_level(ctx, stats):
     t0 = time.time()
     builds = build_tools(ctx, stats)
     ncases = 3 if quick else 6
-    flavours = ["packdir", "packfile", "tar", "packdir-k"]
+    flavours = ["packdir", "packfile", "tar", "packdir-k", "packdir-sort", "globfile-sort"]
     jobs_list = [1, 2, 3, 4, 7, 16, 64, None]
     q_list = [1, 2, 3, 10, 1000, None]
     runs = bad = 0
@@ -986,7 +1080,22 @@ def tool_level(ctx, stats):
     handoffs = delays = untraced = unperturbed = 0
     loc = {"runs": 0, "image_mismatches": 0, "calls": {}, "setlocale_args": set(), "env_names": set(), "log_missing": 0}
     tsan_runs = tsan_reports = 0
-    time_calls = 0
+    tlog = ctx.scratch / "c02_time.log"
+    clock = {"runs": 0, "bound": 0, "log_unreadable": 0, "unbound": 0, "reads": {}}
+
+    def clock_account(log, exe):
+        """one packer run under the clock shim: the record file must be readable and hold the `bound` record of that packer"""
+        clock["runs"] += 1
+        tl = read_time_log(log)
+        if tl is None:
+            clock["log_unreadable"] += 1
+            return
+        if exe in tl["bound"]:
+            clock["bound"] += 1
+        else:
+            clock["unbound"] += 1
+        for fn in tl["reads"]:
+            clock["reads"][fn] = clock["reads"].get(fn, 0) + 1
     samples = []
     ncpu = len(os.sched_getaffinity(0))
     for ci in range(ncases):
@@ -1030,6 +1139,13 @@ def tool_level(ctx, stats):
                            # 0: seeded delays (completion order); 1: the worker that takes the first block is held back, the others
                            # compress what follows; 2: round robin, consecutive blocks go to different workers
                            "C02_PERTURB_MODE": str(k % 3), "C02_PERTURB_FIRST_MS": str(rng.choice([20, 60]))}
+                    # LANG / LC_COLLATE / LC_CTYPE vary as well; every fourth run has no LC_ALL, so that they are what counts (no draw from
+                    # rng: the cases of a seed stay what they were)
+                    env["LANG"] = ["C", "tr_TR.UTF-8", "en_US.UTF-8", "de_DE.ISO-8859-1"][k % 4]
+                    env["LC_COLLATE"] = ["en_US.UTF-8", "C", "cs_CZ.UTF-8"][k % 3]
+                    env["LC_CTYPE"] = ["tr_TR.ISO-8859-9", "C.UTF-8"][k % 2]
+                    if k % 4 == 3:
+                        env["LC_ALL"] = ""
                     umask = rng.choice(ENV_CHOICES["umask"])
                     cwd = rng.choice([str(ctx.scratch), "/", str(inp["dir"])])
                     prefix = []
@@ -1046,7 +1162,9 @@ def tool_level(ctx, stats):
                         variant = "plain"
                         env["LD_PRELOAD"] = str(builds["timeshim"])
                         env["C02_FAKE_TIME"] = str(rng.choice([0, 86399, 1234567890, 4102444800]))
-                        env["C02_TIME_LOG"] = str(ctx.scratch / "c02_time.log")
+                        env["C02_TIME_LOG"] = str(tlog)
+                        if tlog.exists():
+                            tlog.unlink()
                     trace = ctx.scratch / "c02_trace.txt"
                     if trace.exists():
                         trace.unlink()
@@ -1071,10 +1189,7 @@ def tool_level(ctx, stats):
                             overtakes += 1
                         worker_counts.add(tr.get("workers"))
                     if variant == "plain":
-                        try:
-                            time_calls += int((ctx.scratch / "c02_time.log").read_text().strip() or 0)
-                        except Exception:
-                            pass
+                        clock_account(tlog, Path(cmd[0]).name)
                     why = None
                     if rc != 0:
                         why = "packer failed (rc=%s): %s" % (rc, err[-300:])
@@ -1112,10 +1227,29 @@ def tool_level(ctx, stats):
                 ll = read_locale_log(llog)
                 if not ll or "strcoll" not in ll:
                     loc["log_missing"] += 1
+                elif flavour in ("packdir-sort", "globfile-sort") and rc == 0 and int(ll.get("fnmatch", "0") or 0) == 0:
+                    loc["log_missing"] += 1               # the glob inputs did not reach fnmatch (or the shim no longer sees it)
                 for k, v in ll.items():
                     if v.isdigit() and k not in ("hostile", "active"):
                         loc["calls"][k] = loc["calls"].get(k, 0) + int(v)
                 loc["setlocale_args"].update(x for x in ll.get("setlocale_args", "-").split(",") if x and x != "-")
+                # a packer that selects a locale other than "C" / "POSIX" (setlocale(cat, "") takes it from LANG / LC_*) makes fnmatch, the
+                # ctype tables, strcoll, strtod ... answer by the environment: a violation whether or not this input's image changes
+                sl_bad = sorted(x for x in ll.get("setlocale_args", "-").split(",")
+                                if x and x != "-" and x.split(":", 1)[-1] not in ("NULL", "C", "POSIX"))
+                if sl_bad:
+                    loc["setlocale_violations"] = loc.get("setlocale_violations", 0) + 1
+                    bad += 1
+                    first = ("sl", Path(cmd[0]).name) not in loc
+                    loc[("sl", Path(cmd[0]).name)] = True
+                    if first: ctx.violation("tool-setlocale:" + Path(cmd[0]).name,
+                                  "%s (%s) selects a locale from the environment: setlocale/newlocale called with %s (category:locale; \"\" = take it "
+                                  "from LANG/LC_*) - from then on fnmatch (glob -name, sort file globs), the ctype tables, strcoll and the number "
+                                  "parsers answer by the caller's environment; image %s the reference image under the hostile locale shim" % (
+                                      Path(cmd[0]).name, flavour, sl_bad, "equals" if (rc == 0 and got == ref) else "DIFFERS from"),
+                                  {"kind": "tool", "seed": ctx.seed, "tier": ctx.tier, "case": ci, "flavour": flavour, "comp": comp,
+                                   "variant": "plain", "extra": lextra, "common": common, "env": lenv, "umask": 0o022, "cwd": str(ctx.scratch),
+                                   "prefix": [], "stderr": err[-1500:], "setlocale_args": sl_bad}, found_input=(rc != 0 or got != ref))
                 loc["env_names"].update(x for x in ll.get("env_names", "-").split(",") if x and x != "-")
                 if rc != 0 or got != ref:
                     loc["image_mismatches"] += 1
@@ -1137,7 +1271,9 @@ def tool_level(ctx, stats):
                     if out.exists():
                         out.unlink()
                     cmd, stdin = tool_cmd(builds, "plain", flavour, inp, out, comp, common + ["-j", "3"])
-                    e = {"LD_PRELOAD": str(builds["timeshim"]), "C02_FAKE_TIME": ft, "TZ": rng.choice(ENV_CHOICES["TZ"])}
+                    if tlog.exists():
+                        tlog.unlink()
+                    e = {"LD_PRELOAD": str(builds["timeshim"]), "C02_FAKE_TIME": ft, "C02_TIME_LOG": str(tlog), "TZ": rng.choice(ENV_CHOICES["TZ"])}
                     env_full = ctx.san_env(e)
                     env_full.pop("SOURCE_DATE_EPOCH", None)
                     f = open(stdin, "rb") if stdin else subprocess.DEVNULL
@@ -1149,6 +1285,7 @@ def tool_level(ctx, stats):
                     if stdin:
                         f.close()
                     shas.append((rc_clock, sha_file(out)))
+                    clock_account(tlog, Path(cmd[0]).name)
                     runs += 1
                 if shas[0] != shas[1] or shas[0][0] != 0:
                     bad += 1
@@ -1197,6 +1334,14 @@ def tool_level(ctx, stats):
                           untraced, unperturbed, delays, loc["log_missing"]),
                       {"kind": "infra", "untraced": untraced, "unperturbed": unperturbed, "delays": delays, "locale_log_missing": loc["log_missing"]},
                       found_input=False)
+    if clock["runs"] == 0 or clock["bound"] != clock["runs"]:
+        bad += 1
+        ctx.violation("infra:tool-instrumentation-missing",
+                      "tool level: of %d packer runs under the clock shim (LD_PRELOAD harness/shim_c02_time.c) %d left no readable record file and %d "
+                      "record files lack the `bound` record of the packer process: the faked wall clock was not in effect there, `0 clock reads` "
+                      "says nothing" % (clock["runs"], clock["log_unreadable"], clock["unbound"]),
+                      {"kind": "infra", "clock_shim_runs": clock["runs"], "clock_shim_bound_runs": clock["bound"],
+                       "clock_log_unreadable": clock["log_unreadable"], "clock_shim_unbound": clock["unbound"]}, found_input=False)
     missing = [c for c in COMPRESSORS if c not in comps_seen]
     if missing:
         bad += 1
@@ -1211,8 +1356,14 @@ def tool_level(ctx, stats):
         "selftest": stats.get("locale_shim_selftest"), "runs_under_hostile_shim": loc["runs"], "image_mismatches": loc["image_mismatches"],
         "calls_recorded": dict(sorted(loc["calls"].items())),
         "locale_sensitive_calls_made": {k: v for k, v in sorted(loc["calls"].items()) if v > 0 and k not in ("getenv", "umask", "getcwd")},
-        "setlocale_arguments": sorted(loc["setlocale_args"]), "environment_variables_asked_for": sorted(loc["env_names"]),
+        "setlocale_arguments": sorted(loc["setlocale_args"]), "runs_in_which_a_locale_was_selected": loc.get("setlocale_violations", 0),
+        "fnmatch_calls_under_the_shim": loc["calls"].get("fnmatch", 0),
+        "glob_inputs": "flavours packdir-sort (-S sort file with [glob] / [glob_no_path] lines) and globfile-sort (pack file of `glob ... -name` "
+                       "lines + the sort file): bracket ranges [a-z] [A-Z] [a-Z] [A-z] [f-i]*_[H-J], high-byte ranges, [[:upper:]]",
+        "environment_variables_asked_for": sorted(loc["env_names"]),
         "name_heads": NAME_HEADS}
+    bad += scale_cases(ctx, builds, stats)
+    runs += 6
     if not quick:
         bad += big_case(ctx, builds, stats)
         runs += 3
@@ -1223,10 +1374,16 @@ def tool_level(ctx, stats):
         "configurations_with_more_than_one_completion_order": sum(1 for v in orders.values() if len(v) > 1),
         "runs_with_overtaking_blocks": overtakes, "consecutive_blocks_started_by_different_workers": handoffs,
         "compressor_options": sorted(xopts_seen)[:40], "compressors_used": sorted(comps_seen), "perturbation_delays_applied": delays,
-        "locale": stats.get("locale", {}), "data_area_beyond_4GiB": stats.get("big", "thorough tier only"), "worker_counts_seen": sorted(worker_counts, key=lambda x: int(x or 0)),
+        "locale": stats.get("locale", {}), "data_area_beyond_4GiB": stats.get("big", "thorough tier only"),
+        "scale_cases": stats.get("scale_cases"), "worker_counts_seen": sorted(worker_counts, key=lambda x: int(x or 0)),
         "tsan_build": stats.get("tsan_build"), "tsan_runs": tsan_runs, "tsan_reports": tsan_reports,
-        "clock_reads_intercepted": time_calls, "source_date_epoch_cases": stats.get("sde_cases", 0),
-        "environment": "TZ x LC_ALL x umask x cwd x CPU affinity (taskset) x faked clock (LD_PRELOAD) x SOURCE_DATE_EPOCH fixed",
+        "clock_reads_intercepted": sum(clock["reads"].values()), "clock_reads_by_entry_point": dict(sorted(clock["reads"].items())),
+        "clock_shim_runs": clock["runs"], "clock_shim_bound_runs": clock["bound"], "clock_shim_logs_unreadable": clock["log_unreadable"],
+        "clock_selftest": stats.get("clock_selftest"),
+        "clock_shim_scope": "time, gettimeofday, clock_gettime(CLOCK_REALTIME/_COARSE/TAI), timespec_get, ftime; a raw syscall or a direct vDSO "
+                            "call is not intercepted (the packers contain neither)",
+        "source_date_epoch_cases": stats.get("sde_cases", 0),
+        "environment": "TZ x LC_ALL (set / empty) x LANG x LC_COLLATE x LC_CTYPE x umask x cwd x CPU affinity (taskset) x faked clock (LD_PRELOAD) x SOURCE_DATE_EPOCH fixed",
         "wall_s": round(time.time() - t0, 1)}
     stats["evaluations"] += runs
     stats["disagreements"] += bad + tsan_reports + sde_bad
@@ -1246,6 +1403,121 @@ def sha_file_big(p):
         return h.hexdigest()
     except OSError:
         return "<no image>"
+
+
+SCALE_WORDS = ("block", "pool", "worker", "fragment", "inode", "table", "squash", "deflate", "queue", "ticket", "backlog", "super",
+               "xattr", "dir", "index", "sparse", "tail", "hash", "export", "id", "the", "of", "and", "a", "to", "in", "is", "0x", "==", "->")
+
+
+def scale_input(path, nblocks, tail, seed):
+    """a text-like, compressible file of nblocks * 4096 + tail bytes without a zero block and without two equal 4096 byte blocks: every
+    4 KiB starts with a line that holds its number, the rest is a window into 4 MiB of seeded pseudo-random words whose offset moves
+    with the block number.  Written 256 blocks at a time (bytes operations only)"""
+    import random
+    rng = random.Random("C02/scale/%d" % seed)
+    words = [w.encode() for w in SCALE_WORDS] + [b"%x" % rng.getrandbits(24) for _ in range(400)]
+    parts, n = [], 0
+    while n < (4 << 20) + 8192:
+        w = rng.choice(words) + (b"\n" if rng.random() < 0.12 else b" ")
+        parts.append(w)
+        n += len(w)
+    pool = b"".join(parts)
+    span = len(pool) - 4096
+    with open(path, "wb") as f:
+        for base in range(0, nblocks, 256):
+            chunk = []
+            for i in range(base, min(base + 256, nblocks)):
+                head = b"== block %08d ==\n" % i
+                off = (i * 4099) % span
+                chunk.append(head + pool[off:off + 4096 - len(head)])
+            f.write(b"".join(chunk))
+        f.write((b"tail of %d blocks\n" % nblocks + pool)[:tail])
+    return nblocks * 4096 + tail
+
+
+def scale_cases(ctx, builds, stats, only=None):
+    """quick and thorough tier: block counts the small input sets never reach.  One ~300 MiB file packed with -b 4096 (more than 2^16
+    blocks: every 16 bit block counter / index would wrap) and with -b 1M (300 blocks and a tail end), -c lz4; the serial-pool build's
+    image against threaded builds (-j 4 under seeded delays, -j 16 -Q 3 with the first worker held back).  -> number of mismatches"""
+    import struct
+    t_all = time.time()
+    d = ctx.scratch / "c02scale"
+    if d.exists():
+        shutil.rmtree(d)
+    (d / "root").mkdir(parents=True)
+    nblocks, tail = 76800, 1234
+    t0 = time.time()
+    size = scale_input(d / "root" / "a_text", nblocks, tail, ctx.seed)
+    (d / "root" / "b_small").write_bytes(b"a second file, so that the fragment block holds two tail ends\n" * 20)
+    for n, t in (("a_text", 1500000001), ("b_small", 1500000002), ("", 1500000003)):
+        os.utime(d / "root" / n if n else d / "root", (t, t))
+    gen_s = round(time.time() - t0, 1)
+    # no zero block, no two equal blocks (otherwise the sparse / de-duplication paths would shrink the case)
+    seen, zero, dup = set(), 0, 0
+    with open(d / "root" / "a_text", "rb") as f:
+        while True:
+            b = f.read(4096)
+            if len(b) < 4096:
+                break
+            h = hash(b)
+            dup += h in seen
+            seen.add(h)
+            zero += b.count(0) == 4096
+    cases = [("blocks-64k", 4096, size // 4096), ("block-1M", 1 << 20, size >> 20)]
+    configs = [("serial", [], {}),
+               ("plain", ["-j", "4"], {"C02_PERTURB_SEED": str(7 + ctx.seed), "C02_PERTURB_MODE": "0", "C02_PERTURB_US": "20"}),
+               ("plain", ["-j", "16", "-Q", "3"], {"C02_PERTURB_SEED": str(8 + ctx.seed), "C02_PERTURB_MODE": "1", "C02_PERTURB_FIRST_MS": "20"})]
+    bad, res = 0, []
+    for name, B, want_blocks in cases:
+        if only and name != only:
+            continue
+        t0 = time.time()
+        shas, submitted, bytes_used = [], [], None
+        for variant, extra, env in configs:
+            out, trace = d / "out.sqfs", d / "trace.txt"
+            for p in (out, trace):
+                if p.exists():
+                    p.unlink()
+            cmd = [str(builds[variant]["gensquashfs"]), "-q", "-f", "-c", "lz4", "-b", str(B), "-D", str(d / "root")] + extra + [str(out)]
+            e = {"SOURCE_DATE_EPOCH": SDE, "C02_TRACE_FILE": str(trace)}
+            e.update(env)
+            rc, err = run_tool(ctx, cmd, None, e, str(ctx.scratch), 0o022, [], timeout=300)
+            sha = sha_file_big(out)
+            shas.append((rc, sha))
+            tr = read_trace(trace)
+            submitted.append(int(tr.get("submitted", "-1")) if tr.get("submitted", "").isdigit() else -1)
+            try:
+                with open(out, "rb") as f:
+                    f.seek(40)
+                    bytes_used = struct.unpack("<Q", f.read(8))[0]
+            except Exception:
+                bytes_used = None
+            why = None
+            if rc != 0:
+                why = "packer failed (rc=%s): %s" % (rc, err[-300:])
+            elif tr.get("fifo") == "0":
+                why = "the pool handed items back out of submission order"
+            elif sha != shas[0][1]:
+                why = "image differs from the serial-pool build's image (sha256 %s… vs %s…)" % (sha[:16], shas[0][1][:16])
+            if why:
+                bad += 1
+                ctx.violation("tool-scale:%s:%s" % (name, vlib.sha(" ".join(extra) + variant)[:12]),
+                              "gensquashfs -c lz4 -b %d %s (%s build) on one %d byte text file (%d blocks): %s" % (B, " ".join(extra), variant, size, want_blocks, why),
+                              {"kind": "tool-scale", "case": name, "seed": ctx.seed, "variant": variant, "extra": extra, "env": env, "stderr": err[-1500:]})
+        # the case is only worth its name if that many blocks really went through the pool and the data was neither stored nor folded away
+        if zero or dup or min(submitted) < want_blocks or (name == "blocks-64k" and min(submitted) <= 65536) or \
+                bytes_used is None or not (size // 20 < bytes_used < size * 9 // 10):
+            bad += 1
+            ctx.violation("infra:tool-scale-not-reached", "tool level, scale case %s: the input has %d zero and %d repeated blocks, the pool saw %s blocks "
+                          "(wanted: at least %d%s), image size %s for %d bytes of input (wanted: compressed, between 5%% and 90%%)" % (
+                              name, zero, dup, submitted, want_blocks, " and more than 65536" if name == "blocks-64k" else "", bytes_used, size),
+                          {"kind": "infra", "case": name, "submitted": submitted, "bytes_used": bytes_used}, found_input=False)
+        res.append({"case": name, "block_size": B, "blocks": want_blocks, "blocks_through_the_pool": submitted, "bytes": size, "image_bytes": bytes_used,
+                    "configs": ["%s %s" % (v, " ".join(x)) for v, x, _ in configs], "sha256": shas[0][1][:16], "seconds": round(time.time() - t0, 1)})
+    shutil.rmtree(d, ignore_errors=True)
+    stats["scale_cases"] = {"input": "one file of %d blocks of 4096 bytes + %d bytes, seeded word text, no zero block, no two equal blocks; a 1300 byte second "
+                                     "file" % (nblocks, tail), "generation_s": gen_s, "cases": res, "mismatches": bad, "wall_s": round(time.time() - t_all, 1)}
+    return bad
 
 
 def big_case(ctx, builds, stats, replay_only=None):
@@ -1372,7 +1644,7 @@ def run(ctx):
         "before: Sqfs.BlockProc.StatefulCodec.HistoryIndependent) are hypotheses of the theorems; zlib, liblzma, liblz4 and libzstd are "
         "third-party code: their history independence is observed on seeded samples (compressor level), not proved"],
         assumptions=["schedule_independent / jobs_independent: worker callbacks do not fail (a failing compressor is covered by "
-                     "failure_deterministic_partial and the failing-codec runs; on the unrepaired tree the failure can be swallowed: known finding)",
+                     "failure_deterministic_partial and the failing-codec runs: sync() ends with get_status since /repo 69db961; a tree without it is reported)",
                      "no allocation failure (C13)"])
 
 
@@ -1429,8 +1701,8 @@ def replay(ctx, path):
         b = split_result(vlib.sh([str(hs)], input=rp["harness_line"] + "\n", env=ctx.san_env(), timeout=600).stdout.strip())[0]
         ms = [ctx.driver(["c02"], l + "\n")[0] for l in rp["model_lines"]]
         print("real (serial pool):     ", b[:3000])
-        print("model, current sync():  ", ms[0][:3000])
-        print("model, repaired sync(): ", ms[1][:3000])
+        print("model, sync() before 69db961 (drain only):  ", ms[0][:3000])
+        print("model, current code (sync() ends with get_status): ", ms[1][:3000])
         fail = b not in ms
         print("REPRODUCED" if fail else "not reproduced")
         return 1 if fail else 0
@@ -1459,6 +1731,7 @@ def replay(ctx, path):
         env = dict(rp["env"])
         if "LD_PRELOAD" in env:
             env["LD_PRELOAD"] = str(builds["timeshim"])
+            env["C02_TIME_LOG"] = str(ctx.scratch / "c02_time.log")
         env["C02_TRACE_FILE"] = str(ctx.scratch / "c02_trace.txt")
         cwd = rp["cwd"] if os.path.isdir(rp["cwd"]) else str(ctx.scratch)
         cmd, stdin = tool_cmd(builds, rp["variant"], rp["flavour"], inp, out, rp["comp"], common + rp["extra"])
@@ -1480,6 +1753,16 @@ def replay(ctx, path):
         print(stats.get("big"))
         fail = len(ctx.violations) > n
         print("REPRODUCED" if fail else "not reproduced")
+        return 1 if fail else 0
+    if kind == "tool-scale":
+        stats = {}
+        builds = build_tools(ctx, stats)
+        ctx.seed = rp.get("seed", ctx.seed)
+        n = len(ctx.violations)
+        scale_cases(ctx, builds, stats, only=rp.get("case"))
+        print(stats.get("scale_cases"))
+        fail = len(ctx.violations) > n
+        print("REPRODUCED" if fail else "not reproduced (the failure may need another schedule: repeat)")
         return 1 if fail else 0
     if kind == "sde":
         stats = {}
